@@ -64,7 +64,9 @@ D3 == [i \in 1..(Len(ScalarLeaves) * 4) |-> DefEntry(ScalarLeaves[((i - 1) \div 
 DoubleLeaves == <<
   L("num-ge-le", TNum("float64", Ge(0), Le(2)), TRUE),   L("num-gt-lt", TNum("float64", Gt(0), Lt(2)), TRUE),
   L("int-ge-lt", TInt("int64", Ge(0), Lt(2)), TRUE),     L("str-exact", TStr(2, 2), TRUE),
-  L("int8-range", TInt("int8", Ge(-1), Le(1)), TRUE),    L("uint16-le", TInt("uint16", NoB, Le(300)), TRUE)
+  L("int8-range", TInt("int8", Ge(-1), Le(1)), TRUE),    L("uint16-le", TInt("uint16", NoB, Le(300)), TRUE),
+  \* FRACTIONAL bounds on integers of both signs: >= 0.5 excludes 0, <= -0.5 excludes 0
+  L("int-ge-frac", TInt("int64", Ge10(5), NoB), TRUE),   L("int-le-negfrac", TInt("int64", NoB, Le10(-5)), TRUE)
 >>
 PairIdx == SelectSeq([i \in 1..(Len(ConsLeaves) * Len(ConsLeaves)) |-> <<((i - 1) \div Len(ConsLeaves)) + 1, ((i - 1) % Len(ConsLeaves)) + 1>>],
                      LAMBDA ab : ab[1] < ab[2])
